@@ -1030,7 +1030,8 @@ Proof.
 Qed.
 Lemma raw_string_ok p : wf_path p = true -> raw_string (34 :: of_string p ++ [34]) = Some (of_string p, []).
 Proof.
-  intro Hp. unfold raw_string. replace (34 =? 34) with true by reflexivity. rewrite scan_string_ok by exact Hp. reflexivity.
+  intro Hp. unfold raw_string. replace (34 =? 34) with true by reflexivity. rewrite scan_string_ok; [reflexivity|].
+  unfold wf_path in Hp. rewrite forallb_forall in *. intros x Hx. specialize (Hp x Hx). lia.
 Qed.
 
 Section Lines.
